@@ -83,11 +83,18 @@ def scenarios(tier, seed):
         pw = 2 if thorough else 1
         sS = n1 * c["bc"] * S["words"] + 2 * n1
         sP = npairs * (c["bc"] if thorough else 1) * pw + npairs // c["bc"]
-        if sS + sP <= 1.3 * target:
+        if sS + sP <= target:
             out.append(dict(base, name=name + "-all", parts=[S, W, dict(kind="P", plo=0, phi=n1 - 2, all_lanes=thorough, words=pw)],
                             timing=dict(lat=[3, 6], stall=0.15), clear_every=5))
             continue
-        out.append(dict(base, name=name + "-singles", parts=[S, W], timing=dict(lat=[3, 3], stall=0.0), clear_every=5))
+        # singles: all positions of a lane stay in one trace; lanes may be spread over several traces
+        ns = max(1, min(c["bc"], round(sS / target)))
+        per = -(-c["bc"] // ns)
+        for j, lo in enumerate(range(0, c["bc"], per)):
+            hi = min(c["bc"], lo + per) - 1
+            out.append(dict(base, name="%s-singles%d" % (name, j), seed=base["seed"] * 17 + j,
+                            parts=[dict(S, lanes=[lo, hi])] + ([W] if j == 0 else []),
+                            timing=dict(lat=[3, 3], stall=0.0), clear_every=5))
         for j, (plo, phi) in enumerate(_pair_chunks(n1, max(1, round(sP / target)))):
             slow = (j % 3 == 1)
             out.append(dict(base, name="%s-pairs%d" % (name, j), seed=base["seed"] * 31 + j,
@@ -160,8 +167,9 @@ def _cases(sc, n1, singles, pairs_all):
     for part in sc["parts"]:
         kind = part["kind"]
         if kind == "S":
+            slo, shi = part.get("lanes", [0, bc - 1])
             for w in range(part["words"]):
-                for lane in range(bc):
+                for lane in range(slo, shi + 1):
                     for f in singles:
                         rd(iso(lane, f))
             if bc > 1:
@@ -403,9 +411,13 @@ def execute(sc, workdir):
             raise RuntimeError("levelised evaluator fell back: %s" % getattr(sim, "why_not", "?"))
     pp = [p for p in sc["parts"] if p["kind"] == "P"]
     assert len(pp) <= 1
-    needS = any(p["kind"] == "S" for p in sc["parts"]) and not hint
+    sp = [p for p in sc["parts"] if p["kind"] == "S"]
+    assert len(sp) <= 1
+    needS = bool(sp) and not hint
+    slo, shi = sp[0].get("lanes", [0, sc["bc"] - 1]) if sp else (0, sc["bc"] - 1)
     plo, phi, allL = (pp[0]["plo"], pp[0]["phi"], pp[0]["all_lanes"]) if pp and not hint else (1, 0, False)
-    header = dict(k=sc["k"], lanes=sc["bc"], wto=sc["wto"], needS=bool(needS), allLanes=bool(allL), plo=plo, phi=phi, name=sc["name"])
+    header = dict(k=sc["k"], lanes=sc["bc"], wto=sc["wto"], needS=bool(needS), slo=slo, shi=shi, allLanes=bool(allL), plo=plo, phi=phi,
+                  name=sc["name"])
     tf = os.path.join(workdir, "trace.ndjson")
     tlc.write_ndjson(tf, header, events + [dict(c="END")])
     v = tlc.validate_trace("T_Ecc", tf, workdir, xmx="4g")
@@ -451,7 +463,7 @@ def execute(sc, workdir):
                 nontrivial=nontriv, traces=1, sample=sample,
                 stats=dict(cycles=cycles, rd=cnt["rd"], we=cnt["we"], clean=cnt["clean"], isolated_single=cnt["single"],
                            isolated_double=cnt["double"], multi_lane=cnt["multi"], lost=sum(1 for e in events if e["c"] == "LOST")),
-                cover=dict(cfg=cname, diff=bool(sc.get("diff")), n1=n1, needS=bool(needS), plo=plo, phi=phi, all_lanes=bool(allL),
+                cover=dict(cfg=cname, diff=bool(sc.get("diff")), n1=n1, lanes=sc["bc"], needS=bool(needS), slo=slo, shi=shi, plo=plo, phi=phi, all_lanes=bool(allL),
                            coverS=info["coverS"], coverP=info["coverP"]))
 
 
@@ -477,9 +489,10 @@ def post(ctx, results, mresults):
         if r.get("error") or "cover" not in r or r["cover"]["diff"]:
             continue
         c = r["cover"]
-        d = per.setdefault(c["cfg"], dict(n1=c["n1"], S=False, ranges=[], all_lanes=True))
+        d = per.setdefault(c["cfg"], dict(n1=c["n1"], S=False, slanes=set(), nlanes=c["lanes"], ranges=[], all_lanes=True))
         if c["needS"] and c["coverS"]:
-            d["S"] = True
+            d["slanes"] |= set(range(c["slo"], c["shi"] + 1))
+            d["S"] = d["slanes"] >= set(range(d["nlanes"]))
         if c["plo"] <= c["phi"] and c["coverP"]:
             d["ranges"].append((c["plo"], c["phi"]))
             d["all_lanes"] = d["all_lanes"] and c["all_lanes"]
